@@ -248,3 +248,49 @@ def handler_replay(failed):
     except ImportError:
         return None, "", "handler replay not available"
     return replay_handler.confirm(failed)
+
+
+def span_replay(method, backward):
+    """Native: scripted runs over the (x0, xend) battery; an accepted step whose reported x differs
+    from interpolant.bounds() (recomputed xold + h) confirms."""
+    try:
+        from . import replay_script as RS
+    except ImportError:
+        return None, "", "scripted replay not available"
+    n = 0
+    for (x0, xend, h0, ms) in RS.battery(method, backward):
+        for pat in ("A", "AA", "AAA", "RA"):
+            try:
+                d = RS.run(method, x0, xend, h0, ms, 100000, pat, "C")
+            except Exception:
+                continue
+            n += 1
+            if not d.get("ok"):
+                continue
+            cbs = d["callbacks"][1:]
+            for k, (cb, b) in enumerate(zip(cbs, d["bounds"])):
+                lo, hi = float(b[0]), float(b[1])
+                xo, x = float(cb[0]), float(cb[1])
+                if (min(xo, x), max(xo, x)) != (lo, hi):
+                    return True, f"probe script {method} {x0!r} {xend!r} {h0!r} {ms!r} 100000 {pat} C", \
+                        f"accepted step {k + 1}: callback (xold, x) = ({xo!r}, {x!r}) but interpolant.bounds() = ({lo!r}, {hi!r})"
+    return None, "scripted battery", f"{n} native runs: callback intervals equal interpolant bounds everywhere"
+
+
+def radau_tolerance_replay():
+    try:
+        d = probe(["radautol"])
+    except Exception as e:
+        return None, "", f"probe failed: {e}"
+    differ = d["scalar"]["naccpt"] != d["vector"]["naccpt"] or d["scalar"]["y_end"] != d["vector"]["y_end"]
+    return (True if differ else None), "probe radautol  (Radau, y_i' = -(1+i) y_i, n = 8, rtol 1e-6 scalar vs [1e-6; 8])", json.dumps(d)
+
+
+def first_step_replay():
+    """Native: first_step larger than the interval through the public solve_ivp."""
+    try:
+        d = probe(["firststep"])
+    except Exception as e:
+        return None, "", f"probe failed: {e}"
+    bad = [m for m, r in d.items() if not r["ends_at_xend"]]
+    return (True if bad else None), "probe firststep  (solve_ivp on [0,1] with first_step = 2.5, every method)", json.dumps(d)
